@@ -4,7 +4,7 @@ SPEC = dict(
                n_quick=60, n_thorough=600, panic_is_violation=True)],
     level_text="Theorems (Props/C01.v), deterministic half of C01, over IEEE binary64 (Coq primitive floats, Flocq): for EVERY finite "
                "non-negative estimate, every lg_k (HLL 4..21, CPC 4..26), both estimators of each family (HIP / composite-out-of-order, "
-               "HIP / ICON) the bound functions of hll/estimator.rs and cpc/estimator.rs -- executable model over the four HLL "
+               "HIP / ICON) and all coupon counts of list/set mode (exhaustive kernel sweep, <= 196608) the bound functions of hll/estimator.rs and cpc/estimator.rs -- executable model over the four HLL "
                "relative-error tables, both RSE factors, the four CPC side tables and error constants re-read from the source on every "
                "run -- give lb3 <= lb2 <= lb1 <= estimate <= ub1 <= ub2 <= ub3 (f64 comparisons, +infinity on overflow allowed), "
                "and the HLL intervals tighten as k grows; the CPC hypothesis 'estimate >= number of coupons' is proved for ICON (by "
@@ -19,13 +19,14 @@ SPEC = dict(
     level_note="No theorem for the statistical half of C01: absence of bias, the advertised RSE and nominal coverage over random item "
                "sets are statements about empirically fitted constants (composite tables, ICON polynomial, binomial approximations) "
                "and about a real hash function (DESIGN.md section 9). Nesting in s of the theta binomial bounds is not proved (it "
-               "needs real analysis of ln/sqrt/powf branches); it is checked on every observation by the oracle. f64::ceil enters the "
-               "CPC theorem through ceil_spec (x <= ceil x, monotone); the executable fceil is tied to the crate by correspondence only. "
+               "needs real analysis of ln/sqrt/powf branches); it is checked on every observation by the oracle. f64::ceil is modelled by fceil (2^52 "
+               "trick), proved to be the integer ceiling on [0, 2^52) and the identity above (Proofs/BoundsCeil.v); that std's ceil "
+               "equals fceil is tied by correspondence only. "
                "The estimate itself is an arbitrary finite non-negative f64 in the theorems (composite estimate, ICON exponential branch "
                "and the ln/powf binomial branches are not modelled).",
     technique="Coq proof: Flocq binary64 lemmas (monotone correctly-rounded division incl. overflow), finite table sweeps by vm_compute "
               "lifted with forallb_forall, induction over update sequences + differential correspondence with a tie oracle",
-    trusted=["f64::ceil satisfies ceil_spec (x <= ceil x, monotone)",
+    trusted=["std's f64::ceil computes the same value as Model/Bounds.fceil (checked bit-for-bit by the tie oracle on every CPC upper bound)",
              "the hooks datasketches::{hll,cpc}::verif_estimator_bounds and verif::theta_binomial_bounds call the crate's own functions",
              "literals of the bound formulas inside function bodies are translated (FLIT_/LIT_ lists) except 1e-5 (written in the model)"],
     assumptions=["the estimate is finite and >= 0 (checked on every observation)", "CPC: 0 < kxp <= k (invariant of C05's model)"],
